@@ -87,10 +87,28 @@ func intsString(p []int) string {
 	return strings.Join(parts, ",")
 }
 
+// Kind registry: every case kind lives in its own file and registers itself from init():
+//   registerKind("subject", genSubjectCases, runSubjectCase)
+// `gen` produces the cases of a tier (the command-line kind name may differ from the `kind=`
+// field, e.g. command "ops" generates kind=op cases); `run` executes one case on the real library.
+type genFn func(tier string, seed int64, only string) []*Case
+type runFn func(c *Case) string
+
+var generators = map[string]genFn{}
+var runners = map[string]runFn{}
+
+func registerKind(genName string, gen genFn, caseKind string, run runFn) {
+	if gen != nil {
+		generators[genName] = gen
+	}
+	if run != nil {
+		runners[caseKind] = run
+	}
+}
+
 func runCase(c *Case) string {
-	switch c.get("kind", "op") {
-	case "op":
-		return runOpCase(c)
+	if r, ok := runners[c.get("kind", "op")]; ok {
+		return r(c)
 	}
 	return "res " + c.id + " unsupported-kind-" + c.get("kind", "op")
 }
@@ -165,9 +183,8 @@ func main() {
 }
 
 func generate(kind, tier string, seed int64, only string) []*Case {
-	switch kind {
-	case "ops":
-		return genOps(tier, seed, only)
+	if g, ok := generators[kind]; ok {
+		return g(tier, seed, only)
 	}
 	fmt.Fprintln(os.Stderr, "unknown kind", kind)
 	os.Exit(2)
